@@ -1,52 +1,70 @@
-import NfcVerif.Model.Collect
+import NfcVerif.Model.CollectOps
 open NfcVerif NfcVerif.Collect
 
 /-! line protocol:
-  collect <sendMiu> <icv> <agf 0|1> <entry>|<entry>|...
-  entry  := S;<sock>;...;L=<pdus>      (ServiceAccessPoint)   |  D;<nres>;<tid.nl,...>;<pdus>   (ServiceDiscovery)
-  sock   := raw=<pdus> | ldl=<pdus> | dlc<e><b><s>.<rw>.<cnt>.<ack>.<confs>=<pdus>      (flags 0/1)
-  pdus   := "-" | kind.hdr.len.id,...
-reply: `none` | `single <pdu>` | `agf <pdus>` followed by ` # ` and the new state in the same syntax -/
+  run <sendMiu> <sec: "-" | icv_size> <agf 0|1> <state> <op>,<op>,...
+  state  := "-" | <entry>|<entry>|...
+  entry  := S;<sock>;...;L=<pdus>      (ServiceAccessPoint)   |  D;<sdres v,v,..>;<tid.nl,...>;<pdus>   (ServiceDiscovery)
+  sock   := raw=<pdus> | ldl.<sendMiu>=<pdus>
+          | dlc.<state 0..6>.<busy><busySent>.<rw>.<cnt>.<ack>.<confs>.<sendMiu>.<sendWin>.<sendCnt>.<sendAck>=<pdus>
+  pdus   := "-" | kind.hdr.len.id.icv.lim,...
+  op     := collect | sendto:a:j:n:id | send:a:j:n:id | connected:a:j:miu:rw:len:id | accepted:a:j:miu:rw:len:id
+          | setrecv:a:j:rw:cnt:ack:confs:busy | setsend:a:j:win:cnt:ack | bindldl:a | binddlc:a:rw | listen:a:j | sdres:a:v | sdreq:a:tid:nl | sddm:a:id | dm:a:id
+reply: <outcome>,<outcome>,... # <state>
+  outcome := ok | bad | exc:<name> | frame:none | frame:single:<pdu>:info=<n> | frame:agf:<pdu>+<pdu>..:info=<n> -/
 
 def kindOf : String → Option Kind
-  | "ui" => some .ui | "i" => some .i | "rr" => some .rr | "dm" => some .dm
-  | "frmr" => some .frmr | "snl" => some .snl | "other" => some .other | _ => none
+  | "symm" => some .symm | "pax" => some .pax | "agf" => some .agf | "ui" => some .ui
+  | "connect" => some .connect | "disc" => some .disc | "cc" => some .cc | "dm" => some .dm
+  | "frmr" => some .frmr | "snl" => some .snl | "dps" => some .dps | "i" => some .i
+  | "rr" => some .rr | "rnr" => some .rnr | "other" => some .other | _ => none
 def kindStr : Kind → String
-  | .ui => "ui" | .i => "i" | .rr => "rr" | .dm => "dm" | .frmr => "frmr" | .snl => "snl" | .other => "other"
+  | .symm => "symm" | .pax => "pax" | .agf => "agf" | .ui => "ui" | .connect => "connect" | .disc => "disc"
+  | .cc => "cc" | .dm => "dm" | .frmr => "frmr" | .snl => "snl" | .dps => "dps" | .i => "i" | .rr => "rr"
+  | .rnr => "rnr" | .other => "other"
 
 def parsePdu (s : String) : Option QPdu :=
   match s.splitOn "." with
-  | [k, h, l, i] => match kindOf k, h.toNat?, l.toNat?, i.toNat? with
-    | some k, some h, some l, some i => some ⟨k, h, l, i⟩
-    | _, _, _, _ => none
+  | [k, h, l, i, c, m] => match kindOf k, h.toNat?, l.toNat?, i.toNat?, c.toNat?, m.toNat? with
+    | some k, some h, some l, some i, some c, some m => some ⟨k, h, l, i, c, m⟩
+    | _, _, _, _, _, _ => none
   | _ => none
 def parsePdus (s : String) : Option (List QPdu) :=
   if s = "-" then some [] else (s.splitOn ",").mapM parsePdu
-def showPdu (p : QPdu) : String := s!"{kindStr p.kind}.{p.hdr}.{p.len}.{p.id}"
+def showPdu (p : QPdu) : String := s!"{kindStr p.kind}.{p.hdr}.{p.len}.{p.id}.{p.icv}.{p.lim}"
 def showPdus (l : List QPdu) : String := if l.isEmpty then "-" else ",".intercalate (l.map showPdu)
 
 def bit (c : Char) : Bool := c = '1'
 def bstr (b : Bool) : String := if b then "1" else "0"
+
+def stateOf : Nat → Option DlcState
+  | 0 => some .shutdown | 1 => some .closed | 2 => some .listen | 3 => some .connect
+  | 4 => some .established | 5 => some .disconnect | 6 => some .closeWait | _ => none
+def stateNum : DlcState → Nat
+  | .shutdown => 0 | .closed => 1 | .listen => 2 | .connect => 3 | .established => 4 | .disconnect => 5
+  | .closeWait => 6
 
 def parseSock (s : String) : Option Sock :=
   match s.splitOn "=" with
   | [t, q] => match parsePdus q with
     | none => none
     | some q =>
-      if t = "raw" then some (.raw q) else if t = "ldl" then some (.ldl q)
+      if t = "raw" then some (.raw q)
       else match t.splitOn "." with
-        | [f, rw, cnt, ack, confs] =>
-          match f.toList, rw.toNat?, cnt.toNat?, ack.toNat?, confs.toNat? with
-          | ['d', 'l', 'c', e, b, s], some rw, some cnt, some ack, some confs =>
-            some (.dlc (bit e) (bit b) (bit s) rw cnt ack confs q)
-          | _, _, _, _, _ => none
+        | ["ldl", m] => m.toNat?.map fun m => .ldl m q
+        | ["dlc", st, f, rw, cnt, ack, confs, sm, sw, sc, sa] =>
+          match st.toNat?.bind stateOf, f.toList, [rw, cnt, ack, confs, sm, sw, sc, sa].mapM String.toNat? with
+          | some st, [b, s], some [rw, cnt, ack, confs, sm, sw, sc, sa] =>
+            some (.dlc ⟨st, bit b, bit s, rw, cnt, ack, confs, sm, sw, sc, sa⟩ q)
+          | _, _, _ => none
         | _ => none
   | _ => none
 def showSock : Sock → String
   | .raw q => "raw=" ++ showPdus q
-  | .ldl q => "ldl=" ++ showPdus q
-  | .dlc e b s rw cnt ack confs q =>
-    "dlc" ++ bstr e ++ bstr b ++ bstr s ++ s!".{rw}.{cnt}.{ack}.{confs}=" ++ showPdus q
+  | .ldl m q => s!"ldl.{m}=" ++ showPdus q
+  | .dlc d q =>
+    s!"dlc.{stateNum d.state}.{bstr d.busy}{bstr d.busySent}.{d.rw}.{d.cnt}.{d.ack}.{d.confs}.{d.sendMiu}.{d.sendWin}.{d.sendCnt}.{d.sendAck}="
+      ++ showPdus q
 
 def parseReq (s : String) : Option (List (Nat × Nat)) :=
   if s = "-" then some [] else
@@ -55,11 +73,14 @@ def parseReq (s : String) : Option (List (Nat × Nat)) :=
     | _ => none
 def showReq (l : List (Nat × Nat)) : String :=
   if l.isEmpty then "-" else ",".intercalate (l.map fun x => s!"{x.1}.{x.2}")
+def parseNats (s : String) : Option (List Nat) :=
+  if s = "-" then some [] else (s.splitOn ",").mapM String.toNat?
+def showNats (l : List Nat) : String := if l.isEmpty then "-" else ",".intercalate (l.map toString)
 
 def parseEnt (s : String) : Option Ent :=
   match s.splitOn ";" with
-  | "D" :: [n, req, dm] => match n.toNat?, parseReq req, parsePdus dm with
-    | some n, some req, some dm => some (.sd ⟨List.replicate n 0, req, dm⟩)
+  | "D" :: [res, req, dm] => match parseNats res, parseReq req, parsePdus dm with
+    | some res, some req, some dm => some (.sd ⟨res, req, dm⟩)
     | _, _, _ => none
   | "S" :: rest =>
     match rest.reverse with
@@ -72,24 +93,49 @@ def parseEnt (s : String) : Option Ent :=
     | [] => none
   | _ => none
 def showEnt : Ent → String
-  | .sd s => s!"D;{s.sdres.length};{showReq s.sdreq};{showPdus s.dmpdu}"
+  | .sd s => s!"D;{showNats s.sdres};{showReq s.sdreq};{showPdus s.dmpdu}"
   | .sap s => "S;" ++ ";".intercalate (s.socks.map showSock ++ ["L=" ++ showPdus s.sendList])
 
 def showState (es : List Ent) : String := if es.isEmpty then "-" else "|".intercalate (es.map showEnt)
 
+def parseOp (s : String) : Option Op :=
+  match s.splitOn ":" with
+  | ["collect"] => some .collect
+  | name :: args =>
+    match name, args.mapM String.toNat? with
+    | "sendto", some [a, j, n, id] => some (.sendto a j n id)
+    | "send", some [a, j, n, id] => some (.send a j n id)
+    | "connected", some [a, j, m, w, l, id] => some (.connected a j m w l id)
+    | "accepted", some [a, j, m, w, l, id] => some (.accepted a j m w l id)
+    | "setrecv", some [a, j, rw, cnt, ack, confs, busy] => some (.setRecv a j rw cnt ack confs (busy = 1))
+    | "setsend", some [a, j, w, c, k] => some (.setSend a j w c k)
+    | "bindldl", some [a] => some (.bindLdl a)
+    | "binddlc", some [a, rw] => some (.bindDlc a rw)
+    | "listen", some [a, j] => some (.listen a j)
+    | "sdres", some [a, v] => some (.sdres a v)
+    | "sdreq", some [a, t, n] => some (.sdreq a t n)
+    | "sddm", some [a, id] => some (.sddm a id)
+    | "dm", some [a, id] => some (.dm a id)
+    | _, _ => none
+  | _ => none
+
+def showOutcome : Outcome → String
+  | .ok => "ok"
+  | .bad => "bad"
+  | .exc e => "exc:" ++ e.name
+  | .frame none => "frame:none"
+  | .frame (some (.single p)) => s!"frame:single:{showPdu p}:info={(Frame.single p).info}"
+  | .frame (some (.agf l)) => "frame:agf:" ++ "+".intercalate (l.map showPdu) ++ s!":info={(Frame.agf l).info}"
+
 def handle (line : String) : String :=
   match line.splitOn " " with
-  | ["collect", m, icv, a, st] =>
-    match m.toNat?, icv.toNat?, (if st = "-" then some [] else (st.splitOn "|").mapM parseEnt) with
-    | some m, some icv, some es =>
-      let r := collect es m icv (a = "1")
-      let f := match r.1 with
-        | none => "none"
-        | some (.single p) => "single " ++ showPdu p
-        | some (.agf l) => "agf " ++ showPdus l
-      let info := match r.1 with | none => 0 | some f => f.info
-      s!"{f} info={info} # {showState r.2}"
-    | _, _, _ => "bad-op"
+  | ["run", m, sec, a, st, ops] =>
+    match m.toNat?, (if sec = "-" then some none else sec.toNat?.map some),
+          (if st = "-" then some [] else (st.splitOn "|").mapM parseEnt), (ops.splitOn ",").mapM parseOp with
+    | some m, some sec, some es, some ops =>
+      let r := run m sec (a = "1") ops es
+      ",".intercalate (r.1.map showOutcome) ++ " # " ++ showState r.2
+    | _, _, _, _ => "bad-op"
   | _ => "bad-op"
 
 def main : IO Unit := runDriver handle
